@@ -288,6 +288,9 @@ class OutgoingBallsHandler(BallDeviceStateHandler):
                     return True
                 self._cancel_future.cancel()
                 self._cancel_future = None
+                # we got a ball. run the checks above again: another source may have sent a ball in the meantime
+                # (which would be mistaken for a returning ball if it arrived during our eject to the playfield)
+                continue
 
             self.ball_device.set_eject_state("waiting_for_target_ready")
 
